@@ -102,7 +102,11 @@ class HistogramFillerBase:
         self.logger = logging.getLogger()
 
         features = features or []
-        self.features = [check_column(c) for c in features]
+        self.features = []
+        for c in features:
+            c = check_column(c)
+            if c not in self.features:  # a feature asked for twice is one histogram, filled once
+                self.features.append(c)
         if not any(binning == opt for opt in ["auto", "unit"]):
             raise TypeError('binning should be "auto" or "unit".')
         self.binning = binning
